@@ -463,9 +463,9 @@ pub fn run(run: &mut Run) {
     let thorough = run.thorough();
     run.seq("TABLE INDICES (whole input domain of every index computation)", |ctx| table_indices(ctx));
     let sel = if thorough {
-        Sel { m3: true, ray: Some(3), ep: Some(false), castle: Some(false), promo: Some(false), reach: Some(4), occ: true, pin2: Some(3), multicheck: Some(3), checkpin: Some(3), castle2: true, hist: Some((3, 2)), ..Default::default() }
+        Sel { m3: true, ray: Some(3), ep: Some(false), castle: Some(false), promo: Some(false), reach: Some(4), occ: true, pin2: Some(3), multicheck: Some(3), checkpin: Some(3), castle2: true, counts: true, hist: Some((3, 2)), ..Default::default() }
     } else {
-        Sel { m3: true, ray: Some(2), ep: Some(false), ep_spread_only: true, castle: Some(false), promo: Some(false), reach: Some(3), occ: true, multicheck: Some(1), checkpin: Some(1), castle2: true, ..Default::default() }
+        Sel { m3: true, ray: Some(2), ep: Some(false), ep_spread_only: true, castle: Some(false), promo: Some(false), reach: Some(3), occ: true, multicheck: Some(1), checkpin: Some(1), castle2: true, counts: true, ..Default::default() }
     };
     run_universes(run, &sel, DISAGREE, &check_pos);
     run_universes(run, &Sel { dense: true, ..Default::default() }, DISAGREE, &check_pos_slim);
